@@ -171,18 +171,25 @@ def check(name, backend, v, parts, res=None):
             # the number of points through the profiler setting or the argument
             refc = {}
             for pi, p in enumerate(free):
-                combos = [(False, None, None)]
+                combos = [(False, None, None, False)]
                 if pi == 0:
-                    combos += [(None, None, None), (None, False, None), (None, True, 5), (False, True, None), (False, False, 5)]
-                for setting, arg, pts in combos:
+                    combos += [(None, None, None, False), (None, False, None, False), (None, True, 5, False), (False, True, None, False), (False, False, 5, False)]
+                    # explicit, asymmetric bounds with few points (the scanned grid does not contain the optimum): the subtracted
+                    # minimum is the cost at the optimum, not the smallest scanned value
+                    combos += [(None, True, 5, True), (None, None, 6, True), (False, None, 5, True)]
+                i0 = w.par_names.index(p)
+                for setting, arg, pts, asymmetric in combos:
                     kw = {} if setting is None else dict(profile_subtract_min=setting)
                     cp = ContoursProfiler(f, profile_points=7, **kw)
                     akw = {} if arg is None else dict(subtract_min=arg)
                     if pts is not None:
                         akw["points"] = pts
-                    prof = np.asarray(cp.get_profile(p, sigma=2, **akw))
+                    if asymmetric:
+                        prof = np.asarray(cp.get_profile(p, low=w.pv[p] - 1.5 * errs[i0], high=w.pv[p] + 1.1 * errs[i0], **akw))
+                    else:
+                        prof = np.asarray(cp.get_profile(p, sigma=2, **akw))
                     sub = arg if arg is not None else (True if setting is None else setting)
-                    tag = "profile:%s" % p if (setting, arg, pts) == (False, None, None) else "profile:%s[setting=%s,subtract_min=%s,points=%s]" % (p, setting, arg, pts)
+                    tag = "profile:%s" % p if (setting, arg, pts, asymmetric) == (False, None, None, False) else "profile:%s[setting=%s,subtract_min=%s,points=%s%s]" % (p, setting, arg, pts, ",low/high" if asymmetric else "")
                     if len(prof[0]) != (7 if pts is None else pts):
                         out.append((tag, 7 if pts is None else pts, int(len(prof[0])), "wrong-number-of-points"))
                         continue
